@@ -307,6 +307,8 @@ type Machine struct {
 	loopAssume map[string]int
 	bigShared bool
 	bigBytesHavoc int
+	bigBytesLen      int  // >= 0: assumed byte length of the first big.Int.Bytes() result whose length is value-dependent
+	bigBytesLenUsed  bool
 	externalPkgs []string
 	contracts map[string]Contract
 	invDefs   []invDef
